@@ -58,7 +58,10 @@ def gen_expression(rng):
              ("{'k|': 'v}'}['k|']", "v}"), ("['p', 'q|r'][1]", "q|r"), ("('m' if 1 | 0 else 'z')", "m"),
              ("str(len({1, 2} | {3}))", "3"), ("(\n 'nl'\n)", "nl"), ("( 'c' # comment | }\n )", "c"),
              ("'%s}' % ('fmt|',)", "fmt|}"), ("{'a': {'b': 'deep}'}}['a']['b']", "deep}"), ("x", None), ("'lit'", "lit"),
-             ("'#nocomment'", "#nocomment"), ("\"q'q\"", "q'q")]
+             ("'#nocomment'", "#nocomment"), ("\"q'q\"", "q'q"),
+             # a bare | or } protected by one kind of bracket only
+             ("'abc'[0 | 1]", "b"), ("str([1 | 2, 3][0])", "3"), ("{1: 'a'}[1 | 0]", "a"), ("str(len({1 | 2}))", "1"),
+             ("str((4 | 1))", "5"), ("['x', 'y'][\n 0 |\n 1]", "y")]
     k = rng.randint(1, 3)
     parts = [rng.choice(atoms) for _ in range(k)]
     text = " + ".join(p[0] for p in parts)
